@@ -197,6 +197,12 @@ def build(chk):
     lazy_scale(chk)
 
 
+def _scale_of(eng, tf):
+    """the public attribute `b` of a b-scaled map (read through the property, not through the private field)"""
+    fr = I.Frame(eng, tf.cls.module, I.Env(), tf.cls, tf, "harness")
+    return fr.getattr(tf, "b")
+
+
 def lazy_scale(chk):
     """b-scaled maps constructed with b=None: `set_maximum_parameter_b` takes b from the first array it sees (its maximum) and never changes a
     b that is set; every method that uses b installs it first, and its result is the one of the same map constructed with that b - so all
@@ -220,9 +226,9 @@ def lazy_scale(chk):
                 xa = I.Arr((n,), lambda i: X(T.zi(i)), "real")
                 ya = I.Arr((n,), lambda i: Y(T.zi(i)), "real")
                 eng_.call_method(tf, "set_maximum_parameter_b", xa)
-                b1 = tf.fields["_b"]
+                b1 = _scale_of(eng_, tf)
                 eng_.call_method(tf, "set_maximum_parameter_b", ya)
-                return b1, tf.fields["_b"]
+                return b1, _scale_of(eng_, tf)
             finally:
                 eng_.generic_indices = []
         for given in (True, False):
@@ -263,7 +269,7 @@ def lazy_scale(chk):
                 tf = eng_.new_object(eng_.get_class(MOD, cname), rmin, rmax, None)
                 arr = I.Arr((n,), lambda i: X(T.zi(i)), "real")
                 v = eng_.call_method(tf, mname, arr)
-                return (v.fn(i0) if isinstance(v, I.Arr) else v), tf.fields["_b"]
+                return (v.fn(i0) if isinstance(v, I.Arr) else v), _scale_of(eng_, tf)
             outs = chk.explore(f"{cname}.{mname}/first-call-without-b", t_first, func=f"{fq}.{mname}")
             rets = [o for o in outs if o.kind == "return"]
             chk.add(f"{cname}.{mname}/first-call-without-b/post/returns", [], z3.BoolVal(bool(rets)), func=f"{fq}.{mname}", meta={"replay": rep})
